@@ -1399,6 +1399,20 @@ func (c *Client) onPUBLISH(head byte) (message, topic []byte, err error) {
 			return nil, nil, err
 		}
 		if bytes != nil {
+			// The PUBREC send earlier may be lost. “[…] the receiver
+			// MUST respond with a PUBREC containing the Packet
+			// Identifier from the incoming PUBLISH Packet […]”
+			// — MQTT Version 3.1.1, conformance statement MQTT-4.3.3-2
+			// Use pendingAck as a buffer here.
+			if len(c.pendingAck) != 0 {
+				return nil, nil, fmt.Errorf("mqtt: internal error: ack %#x pending during PUBLISH exactly once duplicate", c.pendingAck)
+			}
+			c.pendingAck = append(c.pendingAck, typePUBREC<<4, 2, byte(packetID>>8), byte(packetID))
+			err = c.write(nil, c.pendingAck)
+			if err != nil {
+				return nil, nil, err // causes resubmission of PUBREC
+			}
+			c.pendingAck = c.pendingAck[:0]
 			return nil, nil, errDupe
 		}
 
